@@ -220,6 +220,17 @@ def run(ctx):
                     log.append(["add", [["circuit", 3], ["bs", 2, 0]], "m", True])
             if rng.random() < 0.25:
                 c, log = sandwich(ctx, lw, rng, b)
+            if rng.random() < 0.03:
+                # wide register with two or three large, non-commuting swaps in a row (mergeable: > 32 entries in total)
+                n = int(rng.choice([17, 20, 24, 33]))
+                c = lw.Circuit(n); log = [["circuit", n]]
+                for _ in range(int(rng.integers(2, 4))):
+                    perm = [int(x) for x in rng.permutation(n)]
+                    c.mode_swaps(dict(zip(range(n), perm))); log.append(["swaps", "full permutation of %d modes" % n])
+                if rng.random() < 0.5:
+                    c.bs(0, 1, 0.3); log.append(["bs", 0, 1, 0.3, "Rx", 0])
+                    c.mode_swaps({0: 2, 2: 5, 5: 0}); log.append(["swaps", {0: 2, 2: 5, 5: 0}])
+                ctx.bucket("wide_register_large_swaps")
         except Exception as e:  # noqa: BLE001
             ctx.count("construction_raised:" + type(e).__name__)
             circmon.drain()
